@@ -81,6 +81,7 @@ struct Env {
 	std::vector<Bytes> unauth_upstream;    // compressed packets sent upstream in the name of slots that were not logged in at that moment
 	std::vector<Bytes> auth_upstream;
 	// counters
+	uint16_t spoof_cmc = 30000; int spoof_data_cmc = 0; uint16_t spoof_id = 60000;   // spoofed messages use their own counters so that honest traffic is bit-identical with and without them
 	int n_login_ok = 0, n_refused = 0, n_replay = 0, n_priv_ok = 0, n_tunw = 0, n_rawlogin_ok = 0, n_vack = 0, n_vful = 0, n_expired_reuse = 0;
 	std::map<std::string, int> per_cmd;
 
@@ -252,7 +253,7 @@ inline uint16_t send_act(Env &E, Tape &t, const Act &a)
 	Source &S = E.S(a.src);
 	const std::string &dom = E.cfg.domain;
 	static const char cm[] = "abcdefghijklmnopqrstuvwxyz0123456789";
-	uint16_t cmc = (uint16_t)(S.sc.cmc++);
+	uint16_t cmc = a.spoof ? E.spoof_cmc++ : (uint16_t)(S.sc.cmc++);
 	std::string name;
 	switch (a.kind) {
 	case K_V: name = refproto::name_version(a.arg ? 0x00000501 + (a.salt & 3) * 0x100 : refproto::PROTOCOL_VERSION, cmc, dom); break;
@@ -275,8 +276,9 @@ inline uint16_t send_act(Env &E, Tape &t, const Act &a)
 		bool authd = slot_ok(E, a.user) && a.user < 16 && E.slot[a.user].auth;
 		(authd ? E.auth_upstream : E.unauth_upstream).push_back(z);
 		int seq = 1 + (int)((a.salt >> 4) % 7);
-		name = refproto::name_data(a.user, seq, 0, 0, 0, 1, cm[S.sc.data_cmc], 0, z, dom);
-		S.sc.data_cmc = (S.sc.data_cmc + 1) % 36;
+		int &dc = a.spoof ? E.spoof_data_cmc : S.sc.data_cmc;
+		name = refproto::name_data(a.user, seq, 0, 0, 0, 1, cm[dc], 0, z, dom);
+		dc = (dc + 1) % 36;
 		break;
 	}
 	case K_RAWLOGIN: {
@@ -299,6 +301,7 @@ inline uint16_t send_act(Env &E, Tape &t, const Act &a)
 	}
 	name = mutate_name(name, a.mut, dom.size());
 	if (name.size() > 253) name = name.substr(name.size() - 253);
+	if (a.spoof) { uint16_t id = E.spoof_id++; if (E.spoof_id == 0) E.spoof_id = 60000; return S.sc.send_name(name, id); }
 	return S.sc.send_name(name);
 }
 
